@@ -1,10 +1,15 @@
 (* C11  Renaming labels or tracks and subsetting preserve structure exactly.
    [getitem a s t] is annotation[s, t] (None = no such track); [map_get l mapping] is
-   mapping.get(l, l). Proved here: rename_labels (in place and on a copy) and subset. Tied by the
-   correspondence but not proved: rename_tracks, relabel_tracks and the generated mapping of
-   rename_labels(generator=...) (results compared exactly with the model for the three generator
-   kinds). Statements only. *)
-From PV Require Import Model.AnnotationOps Proofs.DictP Proofs.AnnotationInvP Proofs.RenameSubsetP.
+   mapping.get(l, l). Proved here: rename_labels (in place and on a copy), subset, and - for the
+   library's two generators ('string' and 'int'; [gen_ok] bounds the number of names drawn from the
+   string generator by the fuel of the model's [word], 26^64 - 1) - rename_tracks (every (segment,
+   label) kept, one track each, k-th track in iteration order named by the k-th generated value),
+   relabel_tracks (every (segment, track) kept, nothing added, k-th track labelled by the k-th
+   value) and the mapping built by rename_labels(generator=...) (k-th label of labels() -> k-th
+   value). Generated values are pairwise distinct (C19). Tied only: user-supplied iterables as
+   generators (compared exactly with the model). Statements only. *)
+From PV Require Import Model.AnnotationOps Proofs.DictP Proofs.AnnotationInvP Proofs.RenameSubsetP
+  Proofs.AnnCropInterP Proofs.AnnRenameTracksP.
 
 (* every track keeps its segment and name and gets mapping.get(label, label): applied once, simultaneously *)
 Theorem C11_rename_applies_mapping_once : forall a mapping s t,
@@ -47,11 +52,38 @@ Theorem C11_subset_adds_nothing : forall eps a labs inv s t l, AInv eps a ->
   getitem (subset_ann eps a labs inv) s t = Some l -> getitem a s t = Some l.
 Proof. exact subset_adds_nothing. Qed.
 
+Theorem C11_rename_tracks : forall eps a g, AInv eps a -> gen_ok g (List.length (itertracks a)) ->
+  exists r, rename_tracks_ann eps a g = Some r /\ AInv eps r /\
+    Permutation (entries (a_tracks r)) (entries (a_tracks a)) /\
+    (forall k x, nth_error (itertracks a) k = Some x -> getitem r (fst (fst x)) (gen_fun g k) = Some (snd x)) /\
+    a_uri r = a_uri a /\ a_modality r = a_modality a.
+Proof. exact rename_tracks_spec. Qed.
+Theorem C11_relabel_tracks : forall eps a g, AInv eps a -> gen_ok g (List.length (itertracks a)) ->
+  exists r, relabel_tracks_ann eps a g = Some r /\ AInv eps r /\
+    (forall k x, nth_error (itertracks a) k = Some x -> getitem r (fst (fst x)) (snd (fst x)) = Some (gen_fun g k)) /\
+    (forall s t, getitem a s t = None -> getitem r s t = None) /\
+    a_uri r = a_uri a /\ a_modality r = a_modality a.
+Proof. exact relabel_tracks_spec. Qed.
+Theorem C11_generated_mapping_follows_label_order : forall eps a g,
+  gen_ok g (List.length (snd (labels eps a))) -> AInv eps a ->
+  exists m, generated_mapping eps a g = Some m /\
+    (forall k l, nth_error (snd (labels eps a)) k = Some l -> d_get l m = Some (gen_fun g k)) /\
+    (forall l, ~ In l (snd (labels eps a)) -> d_get l m = None).
+Proof. exact generated_mapping_spec. Qed.
+Theorem C11_generated_values_distinct : forall g n i j, gen_ok g n -> (i < n)%nat -> (j < n)%nat ->
+  gen_fun g i = gen_fun g j -> i = j.
+Proof. exact gen_fun_inj. Qed.
+
 Example C11_nonvacuous :
   let a := ann_of 0 None None [((0, 4), NStr "x", NStr "a"); ((0, 4), NStr "y", NStr "b"); ((2, 6), NStr "_", NStr "a")] in
   itertracks (rename_labels_inplace a [(NStr "a", NStr "b"); (NStr "b", NStr "a")])
     = [((0, 4), NStr "x", NStr "b"); ((0, 4), NStr "y", NStr "a"); ((2, 6), NStr "_", NStr "b")] /\
-  itertracks (subset_ann 0 a [NStr "a"; NStr "zz"] true) = [((0, 4), NStr "y", NStr "b")].
+  itertracks (subset_ann 0 a [NStr "a"; NStr "zz"] true) = [((0, 4), NStr "y", NStr "b")] /\
+  option_map itertracks (rename_tracks_ann 0 a GString)
+    = Some [((0, 4), NStr "A", NStr "a"); ((0, 4), NStr "B", NStr "b"); ((2, 6), NStr "C", NStr "a")] /\
+  option_map itertracks (relabel_tracks_ann 0 a GInt)
+    = Some [((0, 4), NStr "x", NInt 0); ((0, 4), NStr "y", NInt 1); ((2, 6), NStr "_", NInt 2)] /\
+  generated_mapping 0 a GString = Some [(NStr "a", NStr "A"); (NStr "b", NStr "B")].
 Proof. vm_compute. repeat split. Qed.
 
 Print Assumptions C11_rename_applies_mapping_once.
@@ -63,3 +95,7 @@ Print Assumptions C11_rename_in_place_keeps_views_fresh.
 Print Assumptions C11_subset_exact.
 Print Assumptions C11_subset_partition.
 Print Assumptions C11_subset_adds_nothing.
+Print Assumptions C11_rename_tracks.
+Print Assumptions C11_relabel_tracks.
+Print Assumptions C11_generated_mapping_follows_label_order.
+Print Assumptions C11_generated_values_distinct.
